@@ -1,6 +1,9 @@
 package main
 
 import (
+	"encoding/json"
+	"os"
+
 	"verif/sim/core"
 	"verif/sim/ev"
 	"verif/sim/layerc"
@@ -41,26 +44,111 @@ var compR = map[string]string{
 	"effects inside thunks/conds/posts":        "workload code calling sim/vrt",
 }
 
+func mergeComp(ms ...map[string]string) map[string]string {
+	out := map[string]string{}
+	for _, m := range ms {
+		for k, v := range m {
+			out[k] = v
+		}
+	}
+	return out
+}
+
+// replayAny dispatches on the layer recorded in the replay document.
+func replayAny(id, path string) int {
+	data, err := os.ReadFile(path)
+	if err != nil {
+		ev.Infra("%v", err)
+	}
+	var doc struct{ Layer string }
+	json.Unmarshal(data, &doc)
+	switch doc.Layer {
+	case "C":
+		return layerc.Replay(id, path)
+	case "D":
+		return layerd.Replay(id, path)
+	}
+	return layerr.Replay(id, path)
+}
+
+var compC = map[string]string{
+	"github.com/goghcrow/go-co/rewriter (Compile; CompileStages hook for the unoptimised stage)": "real code, run in a subprocess (sim/cmd/codrv built from /repo's working tree with -tags verif, production mode: not a *.test binary)",
+	"github.com/goghcrow/go-co/seq":                                    "real code, linked into every batch run binary",
+	"go/packages + go list, go build, Go runtime":                      "real",
+	"consumer, thread scheduler, fault plans, argument vectors":        "simulator (sim/driver, sim/sched)",
+	"reference coroutine + reference rendering of the same program IR": "model (sim/refco, sim/gen renderer: differs from the source in 6 token-level places)",
+	"program generator (profiles, swarm configuration)":                "workload generator (sim/gen); input sampling, not simulation (DESIGN.md 3)",
+}
+
+var compD = map[string]string{
+	"github.com/goghcrow/go-co/cmd/cogen":                                    "real binary built from /repo's working tree, run as go:generate runs it (cwd = package dir, GOFILE set)",
+	"github.com/goghcrow/go-co/rewriter.Compile":                             "real code via sim/cmd/codrv (production mode)",
+	"file system, go list, go build/test":                                    "real (scratch tree outside /repo and /verif)",
+	"crash states (partial <dst>_tmp / <dst>, torn file, stale directories)": "constructed by the simulator from the stage outputs of a clean run (DESIGN.md 2.6)",
+	"reference": "clean run of the same sources in a fresh tree",
+}
+
+const ruleC = " Each batch is a package of seeded generator functions (swarm configuration per batch) compiled by the real compiler; an acceptance-gate failure (compiler panic / output does not build) on a generated program is a violation of this property. Non-trivial = the history has >= 1 delivered value and >= 2 generator-side effects (plain entries: >= 2 effects); distinct = digest of (function source text, arguments, op list, thread choices, fault index)."
+
 var registry = map[string]check{
-	"C16": {parts: []part{{"disk", layerd.C16, 16, 96}}, level: "fault_enumeration", rule: "wip", components: compR},
-	"C15": {parts: []part{{"disk", layerd.C15, 16, 48}}, level: "fault_enumeration", rule: "wip", components: compR},
-	"C07": {parts: []part{{"compiled", layerc.C07, 16, 160}}, level: "exploration", rule: "wip", components: compR},
-	"C13": {parts: []part{{"compiled", layerc.C13, 16, 160}}, level: "exploration", rule: "wip", components: compR},
-	"C03": {parts: []part{{"compiled", layerc.C03, 16, 160}}, level: "exploration", rule: "wip", components: compR},
-	"C04": {parts: []part{{"compiled", layerc.C04, 16, 160}}, level: "exploration", rule: "wip", components: compR},
-	"C05": {parts: []part{{"compiled", layerc.C05, 16, 160}}, level: "exploration", rule: "wip", components: compR},
-	"C06": {parts: []part{{"compiled", layerc.C06, 16, 160}}, level: "exploration", rule: "wip", components: compR},
-	"C02": {
-		parts: []part{{"compiled", layerc.C02, 16, 160}},
-		level: "exploration", rule: "wip", components: compR,
-	},
 	"C01": {
-		parts: []part{{"compiled", layerc.C01, 16, 160}},
-		level: "exploration", rule: "wip", components: compR,
+		parts: []part{{"compiled", layerc.C01, 16, 160}}, replay: layerc.Replay, level: "exploration", components: compC,
+		rule:        "cases = (generator from the control-flow profile: blocks, if/else-if chains, expression/type/tag-less switches, three-clause/condition-only/infinite loops with yielding init/post, break/continue/return at any depth, nested generator literals) x up to 36 argument vectors x a full drain (infinite generators: 64 elements); oracle: the projection of the history onto delivered values and the position of the first false advance equals the reference coroutine's." + ruleC,
+		assumptions: []string{"fault-free full-drain projection of the C02 simulation: this property has no schedule dimension of its own (DESIGN.md 4 C01)", "known findings A1/A2 are quarantined from random generation and run as pinned cases"},
+	},
+	"C02": {
+		parts: []part{{"compiled", layerc.C02, 16, 160}}, replay: layerc.Replay, level: "exploration", components: compC,
+		rule:        "cases = (generator from the control-flow profile with effects between all statements and inside yielded expressions) x argument vectors x a consumer history: new, optional Current before the first advance, advances with 0-2 Current reads each, two advances after exhaustion, one quiesce step (Gosched/GC: nothing may be logged). Oracle: full event-history equality with the reference coroutine: no effect between inv(new) and the first advance, every effect inside the same consumer call as in the reference, nothing after exhaustion; a deterministic history contains every truncation point as a prefix." + ruleC,
+		assumptions: []string{"effects (vrt.E) are the observable of 'a statement ran'"},
+	},
+	"C03": {
+		parts: []part{{"compiled", layerc.C03, 16, 160}}, replay: layerc.Replay, level: "exploration", components: compC,
+		rule:        "cases = (generator from the scope profile: declarations and shadowing in nested blocks and for/switch/if initialisers, updates before and after yields, closures created before a yield and called after it, closures updating captured variables, names from tiny pools so shadowing is frequent) x argument vectors x drain; every effect and yield reads a drawn subset of the variables in scope; oracle: full history equality with the reference." + ruleC,
+		assumptions: []string{"closures capturing a loop variable and outliving the iteration are not generated (language-version dependent, DESIGN.md 3)"},
+	},
+	"C04": {
+		parts: []part{{"compiled", layerc.C04, 16, 160}}, replay: layerc.Replay, level: "exploration", components: compC,
+		rule:        "cases = (generator from the range profile: range over slice/array/string incl. multi-byte and invalid UTF-8/map/closed channel/int incl. <= 0/typed small integer x forms k,v := | k := | _,v := | none | k,v = x yielding and non-yielding bodies, break/continue, nesting, ranges inside closures x mutation of the ranged collection in the body: element writes, append, reslice, map delete/overwrite; range expression with an effect) x argument vectors x drain; oracle: full history equality with the reference, which executes Go's own range. Multi-entry maps only with order-insensitive (commutative) bodies." + ruleC,
+		assumptions: []string{"known finding A6 (array operand is not copied) is quarantined: no write to a ranged array when the value variable is present"},
+	},
+	"C05": {
+		parts: []part{{"compiled", layerc.C05, 16, 160}}, replay: layerc.Replay, level: "exploration", components: compC,
+		rule:        "cases = (generator from the delegation profile: YieldFrom at any statement position incl. for init/post and switch cases, argument with an effect, delegates that are fresh / held in a variable / advanced by hand before delegation / delegated twice / nested generator literals; chain recursion to depth 200, tree recursion, mutual recursion) x argument vectors x consumer history as C02; oracle: full history equality with the reference, whose YieldFrom is by definition for-range-Yield." + ruleC,
+		assumptions: []string{},
+	},
+	"C06": {
+		parts: []part{{"compiled", layerc.C06, 16, 160}}, replay: layerc.Replay, level: "exploration", components: compC,
+		rule:        "cases = plain (non-generator) functions of a processed file consuming generators with for v := range / for v = range / pull loops, break/continue/return in the body, re-declaration of the loop variable, nested consumer loops, plus hand-written declarations that put the iterator type in results, parameters, struct fields, map values, slices, closures, type arguments, generic and method generators and mix pull and range on one iterator value; x argument vectors; the observation is the two-sided history (generator-side effects count the pulls). Oracle: history equality with the reference (Go's range-over-func on refco)." + ruleC,
+		assumptions: []string{},
+	},
+	"C07": {
+		parts: []part{{"compiled", layerc.C07, 16, 160}}, replay: layerc.Replay, level: "exploration", components: compC,
+		rule:        "cases = (function from the all profile + declarations aimed at the optimiser: closures of the eta-reducible shape over reassigned function variables, method values on reassigned receivers, builtins, conversions, generic instantiations, a loop condition calling a reassigned variable, imports used only by generator code / only by bystanders / blank / renamed / dot) x argument vectors x drain, fault-free and with a panic armed at sampled effect indices. Oracle (self-relative): history(unoptimised stage) == history(optimised stage) of the SAME compiler run; the hook's optimised output is cross-checked byte for byte against production Compile on every batch; both stages must build." + ruleC,
+		assumptions: []string{"the unoptimised stage is made buildable by removing only the (then unused) import of the API package"},
+	},
+	"C12": {
+		parts: []part{{"compiled", layerc.C12, 16, 128}}, replay: layerc.Replay, level: "exploration", components: compC,
+		rule:        "cases = a supported program with ONE unsupported construct (goto, labelled break/continue, select, defer, fallthrough out of a yielding case, range over func / pointer-to-array, yield in an if/switch initialiser, go Yield, wrong result signature) spliced in at a drawn statement position of a generator body; one case in four is a negative control (the construct inside an immediately called plain closure, where it must be accepted). Each program is its own package. Oracle: compilation fails with a diagnostic, OR the output builds and its histories equal the reference's (schedules as C02); programs without source-level meaning (go Yield, wrong signature) must be rejected; controls must be accepted and equal. The fault space is syntactic (injected into the workload), said plainly. Every case is non-trivial; distinct = digest of (construct, control flag, program text).",
+		assumptions: []string{"the listed constructs are the property's list; a function value of Yield is not on it and is not generated"},
+	},
+	"C13": {
+		parts: []part{{"compiled", layerc.C13, 16, 160}}, replay: layerc.Replay, level: "exploration", components: compC,
+		rule:        "cases = bystander code co-located with generators: generated plain functions with closures (capture by reference, updates through closures) and hand-written declarations: package-level function variable, constants, variable initialisers, init(), methods, closures of the shape func(p){return f(p)} with f a reassigned function variable / method value on a reassigned or nil receiver / value receiver / builtin / conversion / generic instantiation; op histories (create closure, reassign, call) are encoded in the functions and steered by the arguments. Oracle: history equality between the package built from the source and from the generated files." + ruleC,
+		assumptions: []string{},
+	},
+	"C15": {
+		parts: []part{{"disk", layerd.C15, 16, 48}}, replay: layerd.Replay, level: "fault_enumeration", components: compD,
+		rule:        "cases = a source set S (generated, range-heavy so iterator temporaries are numbered) x tool-run histories: 3 fresh processes; same destination again; unrelated API-using files in the same package sorting before and after S's files; S in a sub-package among other packages; destination holding outputs of other sources; restart after a run killed at EVERY file-write point of both stages (thorough; a seeded subset of 6 in quick), with and without a torn next file; stale temporary directory of a run over other sources with the same file names; WithLoadTest option drawn per case. Oracle: every generated file of S is byte-identical to the clean run's, no <dst>_tmp is left, no generated helper identifier is defined twice in a file. Every case is non-trivial; distinct = (source digest, configuration).",
+		assumptions: []string{"crash states are constructed from the stage outputs of a clean run in the order the tool writes files; the tool has no storage seam (DESIGN.md 2.6)"},
+	},
+	"C16": {
+		parts: []part{{"disk", layerd.C16, 48, 192}}, replay: layerd.Replay, level: "fault_enumeration", components: compD,
+		rule:        "cases = generated package layouts (several *_co.go files whose helpers and types live in a plain sibling file, so the optimise stage reloads a partial package; *_co_test.go; co-named files importing but not using / not importing the API; API-using file without the suffix; sub-package) x variant (clean / stale sibling <dir>_tmp of a killed run / stale outputs of an older source version). History: snapshot, cogen, snapshot, go build, go build -tags co, go test, cogen, snapshot. Oracle: created paths are exactly the _co-stripped names of API-using co files, each starts with the '!co' constraint and the generated-code header, nothing else created/modified/left (no <dir>_tmp), builds and tests pass, second run byte-identical.",
+		assumptions: []string{"the tool is run the way go:generate runs it (GOFILE set, cwd = package directory)"},
 	},
 	"C08": {
 		parts:  []part{{"runtime", layerr.C08, 32, 320}},
-		replay: layerr.Replay, level: "exploration",
+		replay: replayAny, level: "exploration",
 		rule: "cases = seeded combinator terms (swarm over constructor subsets, thunks with stateful effects/conditions) x a full-drain consumer history with Current/Send/Result/quiesce steps, compared event by event with the reference interpreter run as a coroutine; plus Combine associativity/unit laws as metamorphic runs of the real code. Non-trivial = the term yields at least once and the history has >= 2 generator-side effects; distinct = digest of (term text, op list).",
 		assumptions: []string{"the reference interpreter (structured loops with break/continue/return, ~70 lines) and refco are correct",
 			"a deterministic full-drain history contains every consumer truncation as a prefix"},
@@ -68,7 +156,7 @@ var registry = map[string]check{
 	},
 	"C09": {
 		parts:  []part{{"runtime", layerr.C09, 32, 256}},
-		replay: layerr.Replay, level: "exploration",
+		replay: replayAny, level: "exploration",
 		rule:        "cases = (generator from the canonical family: n yields with/without result, echo generators; or a random term) x a seeded operation history over {MoveNext, Current, Send(unique v), Result} biased to the protocol boundaries, compared event by event with the sequential reference model (refco state machine: unstarted/suspended/done). Result is compared only once the model is done (its value is masked before). Non-trivial = >= 3 ops and >= 1 successful advance; distinct = digest of (term, ops).",
 		assumptions: []string{"refco implements the documented protocol (auto-start on Send, zero Current before start/after exhaustion)"},
 		components:  compR,
@@ -82,21 +170,21 @@ var registry = map[string]check{
 	},
 	"C14": {
 		parts:  []part{{"runtime", layerr.C14, 32, 256}, {"compiled", layerc.C14, 16, 128}},
-		replay: layerr.Replay, level: "exploration",
+		replay: replayAny, level: "exploration",
 		rule:        "cases = k<=6 iterators over <=3 term descriptions (iterators may be started from ONE shared Seq value) owned by m<=4 consumer threads; the seeded scheduler picks the running thread at every op boundary and at every effect point inside a step. Oracle (self-relative): each iterator's projection of the interleaved history equals the history of the same iterator consumed alone by the same ops; secondary: the interleaved history equals the reference's under the same choices. Non-trivial = >= 2 iterators, >= 2 thread switches, >= 2 effects; distinct = digest of (terms, ownership, ops, choices).",
 		assumptions: []string{"one goroutine runnable at a time (baton passing) is a faithful stand-in for interleavings at effect points; data races are the -race supplement's job"},
-		components:  compR,
+		components:  mergeComp(compR, compC),
 	},
 	"C17": {
 		parts:  []part{{"runtime", layerr.C17, 12, 12}, {"compiled", layerc.C17, 3, 6}},
-		replay: layerr.Replay, level: "exploration",
+		replay: replayAny, level: "exploration",
 		rule:        "cases = loop kind (For/While/Loop) x quiet body (Continue/Normal, optionally behind an inner loop) x n in an ascending ladder; stack depth (runtime.Callers) sampled at effect points; oracle: max depth at 10n <= max depth at n + 8 frames, and delivered values equal the reference. Every case is non-trivial (>= 100 iterations); distinct = (loop shape, n).",
 		assumptions: []string{"runtime.Callers depth is a faithful measure of stack use per frame kind"},
 		components:  compR,
 	},
 	"C18": {
 		parts:  []part{{"runtime", layerr.C18, 32, 192}, {"compiled", layerc.C18, 16, 128}},
-		replay: layerr.Replay, level: "fault_enumeration",
+		replay: replayAny, level: "fault_enumeration",
 		rule:        "for each sampled (terms, consumer ops, thread interleaving) with J generator-side effects in the fault-free run, J further runs arm a panic with a unique value at effect j (every j, capped at 120 quick / 400 thorough per run). Oracle (self-relative): identical history up to effect j, the consumer call that was executing ends in a panic carrying exactly the armed value, no later event of that iterator, all other iterators' projections unchanged; secondary: the reference coroutine's history under the same fault is identical. Non-trivial = the run yields at least once; distinct = digest of (scenario, j).",
 		assumptions: []string{"effects (vrt.E) mark every statement position a panic can originate from in the workload"},
 		components:  compR,
